@@ -377,6 +377,8 @@ pub fn gen_cases<G: AffineRepr>(seed: u64, tier: &str, stream: &str, curve_idx: 
         ("honest", true) => 60,
         ("cs", false) => 40,
         ("cs", true) => 300,
+        ("mutfields", false) => 36,
+        ("mutfields", true) => 72,
         (_, false) => 8,
         (_, true) => 40,
     };
@@ -493,6 +495,54 @@ pub fn gen_cases<G: AffineRepr>(seed: u64, tier: &str, stream: &str, curve_idx: 
                     .take(90)
                     .collect();
                 c.muts = vec![m];
+                out.push(c);
+            }
+            // every proof field perturbed once: 11 fixed points, L_0, R_0 (offset by a random generator multiple), 5 scalars
+            "mutfields" => {
+                let two_phase = k % 2 == 1;
+                let field = (k / 2) % 18;
+                let sh = Shape { commits: 2, ops1: 3, closures: if two_phase { 1 } else { 0 }, ops2: 3, allow_missing: false };
+                let mut g = gen_program::<F<G>>(&mut rng, &sh);
+                // make sure there are at least two gates so that L_0 / R_0 exist
+                g.prog.push(COp::AllocMul(Some((F::<G>::rand(&mut rng), F::<G>::rand(&mut rng)))));
+                g.prog.push(COp::AllocMul(Some((F::<G>::rand(&mut rng), F::<G>::rand(&mut rng)))));
+                let n = (g.n1 + g.n2 + 2).next_power_of_two();
+                let dim = 2 + 2 * n;
+                let mut c = R1csCase::plain(id, g.prog, n, n, rng.gen());
+                let m = if field < 13 {
+                    let mut co = vec![F::<G>::zero(); dim];
+                    co[rng.gen_range(0..dim)] = F::<G>::rand(&mut rng);
+                    let sel = if field < 11 { (0, field) } else if field == 11 { (1, 0) } else { (2, 0) };
+                    Mutation::PointAdd(sel, co)
+                } else {
+                    Mutation::ScalarAdd(field - 13, if k % 4 < 2 { F::<G>::from(1u64) } else { -F::<G>::from(1u64) })
+                };
+                c.tag = format!("mutfield {} phase2={} n={}", field, two_phase, n);
+                c.muts = vec![m];
+                out.push(c);
+            }
+            // degenerate-but-consistent proofs through forced draws: gate-free circuit, one blinding forced to 0
+            "forced" => {
+                let sh = Shape { commits: rng.gen_range(1..3), ops1: 0, closures: 0, ops2: 0, allow_missing: false };
+                let mut g = gen_program::<F<G>>(&mut rng, &sh);
+                // a satisfied constraint over the commitments: sum c_i v_i - value = 0
+                let mut terms: Lcx<F<G>> = vec![];
+                let mut val = F::<G>::zero();
+                for (i, op) in g.prog.iter().enumerate() {
+                    if let COp::Commit(v, _) = op {
+                        let c = F::<G>::rand(&mut rng);
+                        terms.push((V::Committed(i), Sx::C(c)));
+                        val += c * v;
+                    }
+                }
+                terms.push((V::One, Sx::C(-val)));
+                g.prog.push(COp::Constrain(terms));
+                let mut forced: Vec<F<G>> = (0..8).map(|_| F::<G>::rand(&mut rng)).collect();
+                let which = [0usize, 1, 2, 3, 4, 7][k % 6];
+                forced[which] = F::<G>::zero();
+                let mut c = R1csCase::plain(id, g.prog, 1, 1, rng.gen());
+                c.forced = forced;
+                c.tag = format!("forced-zero-draw idx={}", which);
                 out.push(c);
             }
             // one-constraint circuits from operator trees (C15): constrain(tree - c)
